@@ -44,6 +44,29 @@ Definition value_error_to_validation {A} (r : result A) : result A :=
 
 Definition is_nil {A} (l : list A) : bool := match l with [] => true | _ => false end.
 
+(* string constants, normalised to code-point lists so that the extracted
+   program does not mention Coq's string type *)
+Definition S_SNAPSHOT : text := Eval vm_compute in bs "SNAPSHOT".
+Definition S_DIRECTORY : text := Eval vm_compute in bs "DIRECTORY".
+Definition S_REVISION : text := Eval vm_compute in bs "REVISION".
+Definition S_RELEASE : text := Eval vm_compute in bs "RELEASE".
+Definition S_pct3B : text := Eval vm_compute in bs "%3B".
+Definition S_pct25 : text := Eval vm_compute in bs "%25".
+Definition S_swh1 : text := Eval vm_compute in bs "swh:1:".
+Definition S_colon : text := Eval vm_compute in bs ":".
+Definition S_visit : text := Eval vm_compute in bs "visit".
+Definition S_anchor : text := Eval vm_compute in bs "anchor".
+Definition S_lines : text := Eval vm_compute in bs "lines".
+Definition S_path : text := Eval vm_compute in bs "path".
+Definition S_snp : text := Eval vm_compute in bs "snp".
+Definition S_rel : text := Eval vm_compute in bs "rel".
+Definition S_rev : text := Eval vm_compute in bs "rev".
+Definition S_dir : text := Eval vm_compute in bs "dir".
+Definition S_cnt : text := Eval vm_compute in bs "cnt".
+Definition S_ori : text := Eval vm_compute in bs "ori".
+Definition S_emd : text := Eval vm_compute in bs "emd".
+Definition S_origin : text := Eval vm_compute in bs "origin".
+
 (* ---------------------------------------------------------------- str primitives *)
 
 (* str.isspace() for one code point = what `\s` matches in a str pattern
@@ -126,10 +149,10 @@ Definition enum_member (name : list N) : text :=
   | Some p => snd p
   | None => []
   end.
-Definition TY_SNAPSHOT := enum_member (bs "SNAPSHOT").
-Definition TY_DIRECTORY := enum_member (bs "DIRECTORY").
-Definition TY_REVISION := enum_member (bs "REVISION").
-Definition TY_RELEASE := enum_member (bs "RELEASE").
+Definition TY_SNAPSHOT := enum_member S_SNAPSHOT.
+Definition TY_DIRECTORY := enum_member S_DIRECTORY.
+Definition TY_REVISION := enum_member S_REVISION.
+Definition TY_RELEASE := enum_member S_RELEASE.
 Definition ANCHOR_TYPES : list text := [TY_DIRECTORY; TY_REVISION; TY_RELEASE; TY_SNAPSHOT].
 
 (* CoreSWHID(object_type=ty, object_id=oid) / ExtendedSWHID(...):
@@ -158,11 +181,11 @@ Definition to_qualified (c : core) : result qualified :=
   mk_q (c_ty c) (c_oid c) None None None None None.
 
 (* ---------------------------------------------------------------- printing *)
-Definition K_origin := bs "origin".
-Definition K_visit := bs "visit".
-Definition K_anchor := bs "anchor".
-Definition K_path := bs "path".
-Definition K_lines := bs "lines".
+Definition K_origin : text := Eval vm_compute in bs "origin".
+Definition K_visit : text := Eval vm_compute in bs "visit".
+Definition K_anchor : text := Eval vm_compute in bs "anchor".
+Definition K_path : text := Eval vm_compute in bs "path".
+Definition K_lines : text := Eval vm_compute in bs "lines".
 Definition FIELD_KEYS : list text := [K_origin; K_visit; K_anchor; K_path; K_lines].
 
 (* ":".join([namespace, str(scheme_version), object_type.value, hash_to_hex(object_id)]) *)
@@ -183,10 +206,10 @@ Fixpoint quote_spaces (t : text) : option text :=
 
 (* the escaping done by qualifiers() today ... *)
 Definition esc_origin (o : text) : option text :=
-  quote_spaces (replace_char 59 (bs "%3B") (replace_char 37 (bs "%25") o)).
+  quote_spaces (replace_char 59 S_pct3B (replace_char 37 S_pct25 o)).
 (* ... and before commit 9a0ba15 (mutant kept for C09_reprint_refuted_old) *)
 Definition esc_origin_old (o : text) : option text :=
-  Some (replace_char 59 (bs "%3B") (replace_char 37 (bs "%25") o)).
+  Some (replace_char 59 S_pct3B (replace_char 37 S_pct25 o)).
 
 Definition print_origin (esc : text -> option text) (o : text) : result text :=
   match o with
@@ -412,17 +435,17 @@ Definition parse_q_old := parse_q_gen parse_lines_old.
    Written from the property statement and the BNF of
    docs/persistent-identifiers.rst, independently of the parser above:
    positional slicing instead of prefix stripping, literal tables. *)
-Definition DOC_CORE_TYPES : list text := [bs "snp"; bs "rel"; bs "rev"; bs "dir"; bs "cnt"].
-Definition DOC_EXT_TYPES : list text := DOC_CORE_TYPES ++ [bs "ori"; bs "emd"].
-Definition DOC_VISIT_TYPES : list text := [bs "snp"].
-Definition DOC_ANCHOR_TYPES : list text := [bs "dir"; bs "rev"; bs "rel"; bs "snp"].
-Definition DOC_KEYS : list text := [bs "origin"; bs "visit"; bs "anchor"; bs "path"; bs "lines"].
+Definition DOC_CORE_TYPES : list text := [S_snp; S_rel; S_rev; S_dir; S_cnt].
+Definition DOC_EXT_TYPES : list text := DOC_CORE_TYPES ++ [S_ori; S_emd].
+Definition DOC_VISIT_TYPES : list text := [S_snp].
+Definition DOC_ANCHOR_TYPES : list text := [S_dir; S_rev; S_rel; S_snp].
+Definition DOC_KEYS : list text := [S_origin; S_visit; S_anchor; S_path; S_lines].
 
 (* "swh:1:" <type> ":" 40 * <hex_digit>, then whatever follows *)
 Definition lang_head (types : list text) (s : text) : option text :=
-  if beqb (firstn 6 s) (bs "swh:1:")
+  if beqb (firstn 6 s) S_swh1
      && mem_bytes (firstn 3 (skipn 6 s)) types
-     && beqb (firstn 1 (skipn 9 s)) (bs ":")
+     && beqb (firstn 1 (skipn 9 s)) S_colon
      && Nat.eqb (length (firstn 40 (skipn 10 s))) 40
      && forallb is_lower_hex (firstn 40 (skipn 10 s))
   then Some (skipn 50 s) else None.
@@ -473,12 +496,12 @@ Definition lang_q (s : text) : bool :=
                          | Some (k, _) => mem_bytes k DOC_KEYS
                          | None => false
                          end) items
-      && opt_ok (lang_id DOC_VISIT_TYPES) (effective (bs "visit") items)
-      && opt_ok (lang_id DOC_ANCHOR_TYPES) (effective (bs "anchor") items)
-      && opt_ok lang_lines (effective (bs "lines") items)
+      && opt_ok (lang_id DOC_VISIT_TYPES) (effective S_visit items)
+      && opt_ok (lang_id DOC_ANCHOR_TYPES) (effective S_anchor items)
+      && opt_ok lang_lines (effective S_lines items)
       (* <path_absolute_escaped> is an RFC 3987 path: its characters are Unicode
          scalar values (a lone surrogate is not a character) *)
-      && opt_ok (forallb is_scalar) (effective (bs "path") items)
+      && opt_ok (forallb is_scalar) (effective S_path items)
   end.
 
 (* no run of more than lim consecutive ASCII digits (so int() never hits the
